@@ -175,7 +175,7 @@ Fixpoint nodup_strb (l : list string) : bool :=
 Definition start_notes (c : case) : list (string * option string * list dblock) :=
   map (fun n => (sn_name n, sn_meta n, sn_blocks n)) (c_notes c).
 Definition distinct_namesb (c : case) : bool :=
-  nodup_strb (map (fun n => key_from_file_name (fst (fst n))) (start_notes c)).
+  nodup_strb (map (fun n => key_name (fst (fst n))) (start_notes c)).
 
 Definition start_state (c : case) : res sstate :=
   server_new (start_notes c)
